@@ -255,6 +255,26 @@ func (v View) subnets() []string {
 	return l
 }
 
+// HasPending: a watch event for the address is still on its way.
+func (v View) HasPending(ip uint32) bool {
+	for _, e := range v.Pend {
+		if e.IP == ip {
+			return true
+		}
+	}
+	return false
+}
+
+// ReservableIP: an address the administrator may reserve now (EnvOK: no watch event for it pending).
+func (v View) ReservableIP(r *rand.Rand) uint32 {
+	for i := 0; i < 8; i++ {
+		if ip := v.anyIP(r); !v.HasPending(ip) {
+			return ip
+		}
+	}
+	return 10<<24 | 250<<16 | 77
+}
+
 func (v View) anyIP(r *rand.Rand) uint32 {
 	all := v.allIPs()
 	if len(all) == 0 || r.Intn(10) == 0 {
@@ -382,7 +402,7 @@ func GenOp(r *rand.Rand, v View, faultPct int) Op {
 		}
 		op.Conf = GenConf(r)
 	case x < 92:
-		op = Op{Kind: "admres", IP: v.anyIP(r), Key: "pool__reserved-for-node_", Policy: r.Intn(3), Plan: NoPlan()}
+		op = Op{Kind: "admres", IP: v.ReservableIP(r), Key: "pool__reserved-for-node_", Policy: r.Intn(3), Plan: NoPlan()}
 	case x < 95:
 		op = Op{Kind: "admunres", IP: v.anyIP(r), Plan: NoPlan()}
 		for _, ip := range sortedIPs(v.Store) {
